@@ -44,10 +44,16 @@ def aesthetics(flux, invvar, method='traditional'):
         elif method == 'mean':
             newflux = flux.copy()
             goodpts = invvar > 0
-            newflux[~goodpts] = newflux[goodpts].mean()
+            if goodpts.any():
+                newflux[~goodpts] = newflux[goodpts].mean()
         elif method == 'damp':
             l = 250  # damping length in pixels
             goodpts = invvar.nonzero()[0]
+            if goodpts.size == 0:
+                #
+                # No good points, nothing to damp towards.
+                #
+                return flux
             nflux = flux.size
             mingood = goodpts.min()
             maxgood = goodpts.max()
